@@ -566,4 +566,19 @@ Proof.
   intros Hs Hd. unfold t_element. rewrite Hs, Hd. cbn. split; reflexivity.
 Qed.
 
+(* any layout is shared when order is None; an explicit order the array does not
+   have, or a read-only array, gives a fresh converted copy and leaves the
+   store's old buffers alone *)
+Lemma element_shares_any_layout (st : store) (sp : tspace) (id : nat) (l : layout) :
+  shape_eqb (a_shape (rd st id)) (ts_shape sp) = true ->
+  dt_eqb (a_dt (rd st id)) (ts_dt sp) = true ->
+  t_element_lay cast st sp id true l None = Ok (OpTens sp id, st).
+Proof. intros Hs Hd. unfold t_element_lay. rewrite Hs, Hd. destruct l; reflexivity. Qed.
+Lemma element_copies_otherwise (st : store) (sp : tspace) (id : nat) w l o :
+  shape_eqb (a_shape (rd st id)) (ts_shape sp) = true ->
+  dt_eqb (a_dt (rd st id)) (ts_dt sp) && w && layout_ok o l = false ->
+  t_element_lay cast st sp id w l o
+  = Ok (OpTens sp (length st), st ++ [cast_arr cast (ts_dt sp) (rd st id)]).
+Proof. intros Hs Hc. unfold t_element_lay. rewrite Hs, Hc. reflexivity. Qed.
+
 End Proofs.
